@@ -40,6 +40,9 @@ CHECKS = {
  "C10": dict(cat="model_checking", technique="exhaustive enumeration of transaction shapes (instruction lists up to a length bound over a 19-symbol alphabet) executed atomically through the real entrypoint with a real instructions sysvar and CPI stack heights; committed transactions judged by a reference bracket language and exact reference health / equity valuations; amount grids with boundary-directed values inside well-formed brackets",
    text="(a) All 2.6 million instruction lists of length <= 5 (quick; <= 6 thorough) over {compute budget, record init, whitelisted refresh, start / end for two unhealthy accounts, withdraw / repay for both (small, oversized), deposit, allowed / not-allowed / malformed foreign program, start / end / withdraw via CPI} are executed as transactions signed by a third party only: a commit never leaves a receivership / deleverage / flash-loan marker or a recorded receiver anywhere, and whenever an account's balances changed the list is a well-formed bracket for that account (single start first after whitelisted instructions, matching end last, only withdraw / repay in between, nothing via CPI), the account was unhealthy, its health is no worse and not positive, and the premium cap holds unless its assets were under $5. (b) [start, repay(y), withdraw(x), end] on an amount grid with values one cent either side of the premium, not-worse and not-positive boundaries x 5 portfolios x maximum-fee settings. (c) Zero-weight and zero-price collateral never leaves in a committed bracket.",
    ref="6 C10"),
+ "C11": dict(cat="model_checking", technique="exhaustive enumeration of transaction shapes (instruction lists up to a length bound over a 21-symbol alphabet incl. every end-index argument) x 7 account states, executed atomically through the real entrypoint with a real instructions sysvar and CPI stack heights; every committed transaction judged by the bracket rules and the exact reference initial health",
+   text="All 1.5 million (quick: length <= 4; thorough: <= 5) instruction lists over {start_flashloan with end index 0..max, end for the account (two risk-account layouts), end for another account of the same authority, that end mentioning the account among its remaining accounts, start / end via CPI, borrow / withdraw within and beyond borrowing power, repay-all, deposit, foreign no-op, liquidate / bankruptcy / start-liquidation of the account} x {normal, frozen, disabled, in receivership, already flagged, liquidatable, bankrupt} are executed as transactions: a commit leaves no account flagged in-flash-loan; each executed start names a later top-level end of this program for the same account, is not nested, not on a frozen / disabled / in-receivership account, and nothing ran via CPI; no liquidation, bankruptcy or receivership start executed while the account was flagged; and after any borrow or withdrawal the account's reference initial health is non-negative.",
+   ref="6 C11"),
  "C12": dict(cat="exploration", technique="complete matrix enumeration through the real entrypoint: delegated-admin instruction x argument menu (all single-bit, all defined-subset and all-ones flag words) x bank flag presets x frozen/unfrozen, byte-level frame diff against per-role field masks; BFS over admin sequences from frozen banks; bounded-exhaustive deleverage sequences against a reference daily window",
    text="(a) Every case of interest-only / limits-only (full product) / e-mode configure and clone / setup and update emissions with 194 flag words / metadata / force-complete / group-admin configure, oracle and fixed-price calls x {bank with, without emissions} x {unfrozen, frozen} x flag presets is executed; the byte diff of every account must stay inside the signer role's field mask, and on a frozen bank weights, oracle, curve, tier, init limit and state must stay and the freeze bit must survive; (b) every admin sequence up to depth 2 (quick) / 3 (thorough) from a frozen bank keeps FREEZE_SETTINGS; (c) every sequence up to depth 3 / 4 of risk-admin deleverage transactions x 4..7 withdrawal values around whole dollars and the limit x clock advances {0, 86399, 86400, 86401} x limits {none, 1, 100}: tumbling-window whole-dollar sum <= limit, health not worse, flags cleared.",
    ref="6 C12"),
